@@ -41,7 +41,9 @@ const (
 	Rejected                // refused by Append: must not be in the log
 )
 
-func (s State) String() string { return [...]string{"pending", "committed", "rolled-back", "rejected"}[s] }
+func (s State) String() string {
+	return [...]string{"pending", "committed", "rolled-back", "rejected"}[s]
+}
 
 // Item is one datum offered to an appender.
 type Item struct {
